@@ -36,8 +36,12 @@ func init() {
 
 type poolSite struct {
 	fn   *ssa.Function
-	call ssa.CallInstruction
-	pool string // stable pool name: global name or Type.field
+	call ssa.CallInstruction // the Get/Put call, or the call of a thin accessor that does it (getBuffer(), putBuffer(b))
+	pool string              // stable pool name: global name or Type.field
+	raw  ssa.CallInstruction // the (*sync.Pool).Get/Put call itself
+	val  ssa.Value           // Get: the typed value obtained (in fn)
+	typ  types.Type          // Get: its asserted type
+	arg  ssa.Value           // Put: the value put (in fn)
 }
 
 func (p *Program) poolName(v ssa.Value) string {
@@ -72,21 +76,143 @@ func (p *Program) poolName(v ssa.Value) string {
 	return "?"
 }
 
-func (p *Program) poolSites(method string) []poolSite {
-	var out []poolSite
+// poolAccessors: thin wrappers around one pool operation. A get-accessor is a transparent helper every return of
+// which yields the value just taken from the pool (getBuffer(), getWriter() (z, ok)); a put-accessor is a
+// transparent helper that puts one of its parameters (putBuffer(b), (z).release()). Their call sites are the
+// Get/Put sites as far as the pool rules are concerned.
+type poolAccessor struct {
+	raw   ssa.CallInstruction
+	pool  string
+	typ   types.Type // get
+	param int        // put
+}
+
+func (p *Program) poolAccessors() (gets, puts map[*ssa.Function]poolAccessor) {
+	if p.poolGetAcc != nil {
+		return p.poolGetAcc, p.poolPutAcc
+	}
+	gets, puts = map[*ssa.Function]poolAccessor{}, map[*ssa.Function]poolAccessor{}
+	p.poolGetAcc, p.poolPutAcc = gets, puts
 	for _, fn := range p.ModuleFuncs() {
+		if !p.isTransparent(fn) {
+			continue
+		}
 		eachInstr(fn, func(in ssa.Instruction) {
 			c, ok := in.(ssa.CallInstruction)
-			if ok && calleeName(c) == "(*sync.Pool)."+method {
-				out = append(out, poolSite{fn, c, p.poolName(c.Common().Args[0])})
+			if !ok {
+				return
+			}
+			switch calleeName(c) {
+			case "(*sync.Pool).Get":
+				v, t := gotValueRaw(c)
+				if v == nil {
+					return
+				}
+				all, n := true, 0
+				eachInstr(fn, func(x ssa.Instruction) {
+					rt, ok := x.(*ssa.Return)
+					if !ok || len(rt.Results) == 0 {
+						return
+					}
+					n++
+					for _, o := range p.origins(rt.Results[0], originOpts{local: true}) {
+						if o != v {
+							all = false
+						}
+					}
+				})
+				if all && n > 0 {
+					gets[fn] = poolAccessor{raw: c, pool: p.poolName(c.Common().Args[0]), typ: t}
+				}
+			case "(*sync.Pool).Put":
+				x := putValueRaw(c)
+				os := p.origins(x, originOpts{local: true})
+				if len(os) == 1 {
+					if par, ok := os[0].(*ssa.Parameter); ok && par.Parent() == fn {
+						puts[fn] = poolAccessor{raw: c, pool: p.poolName(c.Common().Args[0]), param: paramIndex(par)}
+					}
+				}
+			}
+		})
+	}
+	return gets, puts
+}
+
+// poolPut: c returns a value to a pool - (*sync.Pool).Put itself or a put-accessor; the value put, in c's function.
+func (p *Program) poolPut(c ssa.CallInstruction) (ssa.Value, bool) {
+	if calleeName(c) == "(*sync.Pool).Put" {
+		return putValueRaw(c), true
+	}
+	_, puts := p.poolAccessors()
+	if callee := c.Common().StaticCallee(); callee != nil && !c.Common().IsInvoke() {
+		if acc, ok := puts[callee]; ok {
+			if a := argAt(c, acc.param); a != nil {
+				return a, true
+			}
+		}
+	}
+	return nil, false
+}
+
+func (p *Program) isPoolPut(c ssa.CallInstruction) bool {
+	_, ok := p.poolPut(c)
+	return ok
+}
+
+func (p *Program) poolSites(method string) []poolSite {
+	var out []poolSite
+	gets, puts := p.poolAccessors()
+	for _, fn := range p.ModuleFuncs() {
+		fn := fn
+		eachInstr(fn, func(in ssa.Instruction) {
+			c, ok := in.(ssa.CallInstruction)
+			if !ok {
+				return
+			}
+			if calleeName(c) == "(*sync.Pool)."+method {
+				// the operation inside a thin accessor is judged at the accessor's call sites
+				if method == "Get" {
+					if acc, isAcc := gets[fn]; isAcc && acc.raw == c {
+						return
+					}
+					v, t := gotValueRaw(c)
+					out = append(out, poolSite{fn: fn, call: c, pool: p.poolName(c.Common().Args[0]), raw: c, val: v, typ: t})
+				} else {
+					if acc, isAcc := puts[fn]; isAcc && acc.raw == c {
+						return
+					}
+					out = append(out, poolSite{fn: fn, call: c, pool: p.poolName(c.Common().Args[0]), raw: c, arg: putValueRaw(c)})
+				}
+				return
+			}
+			callee := c.Common().StaticCallee()
+			if callee == nil || c.Common().IsInvoke() {
+				return
+			}
+			if method == "Get" {
+				if acc, isAcc := gets[callee]; isAcc {
+					var val ssa.Value
+					if v, isVal := in.(ssa.Value); isVal {
+						val = v
+						if _, isTuple := v.Type().(*types.Tuple); isTuple {
+							val = nil
+							if cc, isCall := v.(*ssa.Call); isCall {
+								val = extractOf(cc, 0)
+							}
+						}
+					}
+					out = append(out, poolSite{fn: fn, call: c, pool: acc.pool, raw: acc.raw, val: val, typ: acc.typ})
+				}
+			} else if acc, isAcc := puts[callee]; isAcc {
+				out = append(out, poolSite{fn: fn, call: c, pool: acc.pool, raw: acc.raw, arg: argAt(c, acc.param)})
 			}
 		})
 	}
 	return out
 }
 
-// gotValue returns the typed value obtained from a Get call (through the type assertion) and the asserted type.
-func gotValue(get ssa.CallInstruction) (ssa.Value, types.Type) {
+// gotValueRaw returns the typed value obtained from a Get call (through the type assertion) and the asserted type.
+func gotValueRaw(get ssa.CallInstruction) (ssa.Value, types.Type) {
 	v, ok := get.(ssa.Value)
 	if !ok || v.Referrers() == nil {
 		return nil, nil
@@ -117,7 +243,7 @@ func rulePoolType(r *Run) {
 	}
 	n := map[string]int{}
 	for _, g := range gets {
-		_, t := gotValue(g.call)
+		t := g.typ
 		n[g.pool]++
 		key := fmt.Sprintf("%s/Get:%s#%d", shortFunc(g.fn), g.pool, n[g.pool])
 		if t == nil {
@@ -125,7 +251,7 @@ func rulePoolType(r *Run) {
 			continue
 		}
 		// pools reached through a *sync.Pool field (z.pool) are resolved by type: every Put of that type's holder
-		ok, why := p.poolSupplies(g.call.Common().Args[0], t)
+		ok, why := p.poolSupplies(g.raw.Common().Args[0], t)
 		if ok {
 			r.ok(key, g.call.Pos(), "%s", why)
 		} else {
@@ -138,7 +264,7 @@ func rulePoolReset(r *Run) {
 	p := r.P
 	n := map[string]int{}
 	for _, g := range p.poolSites("Get") {
-		v, t := gotValue(g.call)
+		v, t := g.val, g.typ
 		n[g.pool]++
 		key := fmt.Sprintf("%s/reset-after-Get:%s#%d", shortFunc(g.fn), g.pool, n[g.pool])
 		if v == nil {
@@ -265,7 +391,7 @@ func (p *Program) resetDominatesUsesDepth(v ssa.Value, reset string, depth int) 
 		if isReset[u] {
 			continue
 		}
-		if c, ok := u.(ssa.CallInstruction); ok && (calleeName(c) == reset || calleeName(c) == "(*sync.Pool).Put") {
+		if c, ok := u.(ssa.CallInstruction); ok && (calleeName(c) == reset || p.isPoolPut(c)) {
 			continue
 		}
 		if _, ok := u.(*ssa.MakeInterface); ok {
@@ -573,7 +699,7 @@ func rulePoolEscape(r *Run) {
 	ta := &taintAnalysis{p: p, memo: map[string]*taintSummary{}}
 	n := map[string]int{}
 	for _, g := range p.poolSites("Get") {
-		v, t := gotValue(g.call)
+		v, t := g.val, g.typ
 		if v == nil {
 			continue
 		}
@@ -641,7 +767,7 @@ func rulePoolEscape(r *Run) {
 // ---------------------------------------------------------------------------
 
 // putValue returns the value put (looking through MakeInterface).
-func putValue(c ssa.CallInstruction) ssa.Value {
+func putValueRaw(c ssa.CallInstruction) ssa.Value {
 	v := c.Common().Args[1]
 	if mi, ok := v.(*ssa.MakeInterface); ok {
 		v = mi.X
@@ -664,7 +790,7 @@ func rulePoolUAP(r *Run) {
 		if ps.fn.Parent() != nil && closureOnlyDeferred(ps.fn.Parent(), ps.fn) {
 			// nothing of the parent runs after it; check the closure body itself
 		}
-		x := putValue(ps.call)
+		x := ps.arg
 		// values that alias x: x itself, loads of cells holding it, results of Bytes() on it
 		alias := map[ssa.Value]bool{x: true}
 		for _, o := range p.origins(x, defaultOrigin) {
@@ -687,7 +813,7 @@ func rulePoolUAP(r *Run) {
 			if _, isRet := in.(*ssa.Return); isRet {
 				// returning the object after Put (gzipReader.Read returns n, err only) — operands checked below
 			}
-			if c, ok := in.(ssa.CallInstruction); ok && calleeName(c) == "(*sync.Pool).Put" {
+			if c, ok := in.(ssa.CallInstruction); ok && p.isPoolPut(c) {
 				return false // POOL-ONCE
 			}
 			for _, op := range in.Operands(nil) {
@@ -727,9 +853,9 @@ func rulePoolOnce(r *Run) {
 		n[ps.pool]++
 		key := fmt.Sprintf("%s/Put-once:%s#%d", shortFunc(ps.fn), ps.pool, n[ps.pool])
 		put := ps.call.(ssa.Instruction)
-		x := putValue(ps.call)
+		x := ps.arg
 		same := func(c ssa.CallInstruction) bool {
-			y := putValue(c)
+			y, _ := p.poolPut(c)
 			if y == x || p.sameValue(x, y) {
 				return true
 			}
@@ -754,7 +880,7 @@ func rulePoolOnce(r *Run) {
 		// a second Put of the same object reachable after this one
 		q := pathQuery{fn: ps.fn, start: put, target: func(in ssa.Instruction) bool {
 			c, ok := in.(ssa.CallInstruction)
-			return ok && in != put && calleeName(c) == "(*sync.Pool).Put" && same(c)
+			return ok && in != put && p.isPoolPut(c) && same(c)
 		}}
 		if w, _ := q.find(); w != nil {
 			twice = true
@@ -763,7 +889,7 @@ func rulePoolOnce(r *Run) {
 		if _, isDefer := put.(*ssa.Defer); !isDefer {
 			eachInstr(ps.fn, func(in ssa.Instruction) {
 				d, ok := in.(*ssa.Defer)
-				if ok && calleeName(d) == "(*sync.Pool).Put" && same(d) {
+				if ok && p.isPoolPut(d) && same(d) {
 					// the deferred Put runs on the exit that follows this Put iff the defer statement executed before: it dominates or precedes on some path
 					if w, _ := (pathQuery{fn: ps.fn, start: in, target: func(x ssa.Instruction) bool { return x == put }}).find(); w != nil {
 						twice = true
